@@ -17,6 +17,12 @@ PositionGap == 1
 \* grouping.  Rust's sort_unstable is an insertion sort (stable in effect) up to 20 elements: documents with
 \* more pairs than that are the boundary (Gen_InvertedIndex emits them around the limit and well above).
 ManyValuesLimit == 20
+\* Term frequencies and position deltas of the last, incomplete block of a posting list (fewer than BlockLen
+\* entries) are written as variable-length integers of 7 bits per byte: one more byte from 2^7, 2^14, 2^21 on.
+\* Full blocks of BlockLen entries are bit-packed.  Gen_InvertedIndex emits frequencies and position gaps at
+\* switch - 1, switch, switch + 1, in lists shorter than a block and in the tail of longer ones.
+BlockLen == 128
+VintSwitches == {2 ^ 7, 2 ^ 14}         \* (2^21 positions in one document is not exercised)
 TERMINATED == 2147483647
 
 SeqSet(s) == {s[i] : i \in 1..Len(s)}
